@@ -129,6 +129,8 @@ def gen_case(r, maxports=4, globs=True, allow_collisions=True):
                 continue
             schema[port] = {'_default': leaves[tgt]}
             topo[port] = list(rel_path(ploc, tgt))
+            if r.random() < 0.3:
+                topo[port] = {'_path': topo[port]}      # the same wiring written as a dictionary with '_path' alone
         elif kind in ('dict', 'out'):
             vs = r.sample(bl, r.randint(1, len(bl)))
             used_nodes.update(vs)
@@ -221,9 +223,13 @@ def gen_case(r, maxports=4, globs=True, allow_collisions=True):
             if sub == 'leaf':
                 schema[port] = {'*': {'_default': 7}}
                 topo[port] = list(rel_path(ploc, G))
+                if r.random() < 0.3:
+                    topo[port] = {'_path': topo[port]}      # (a dictionary with '_path' alone, no entry for '*')
             elif sub == 'dict':
                 schema[port] = {'*': {'x': {'_default': 7}, 'y': {'_default': 8}}}
                 topo[port] = list(rel_path(ploc, G))
+                if r.random() < 0.3:
+                    topo[port] = {'_path': topo[port]}
                 # some children exist because a process (or a step) of their own lives in them: it declares x
                 # (wired to its own compartment); y comes only from the glob's sub-schema
                 for c in range(nchild):
